@@ -194,10 +194,28 @@ def run(prog, ctx):
     res.obligations += 1
     early = [b for b in con.blocks if not b.cleanup and b.term[0] == "switch"]
     conds = [show(s.operand(b.term[1])) for b in early]
-    if all("is_empty" in c or "num_bits_set" in c for c in conds):
-        res.discharged += 1
-    else:
-        res.undecided += 1
+    # by value: a path that answers `false` outright (a constant, no probe) may be taken only when no bit is set -- the probe
+    # positions of one item need not be distinct, so a filter holding a single item can have fewer bits set than hashes
+    verdict, wit = None, ""
+    for blk in con.blocks:
+        if blk.cleanup:
+            continue
+        for st_ in blk.stmts:
+            if st_[0] == "=" and st_[1] == 0 and st_[2][0] == "use" and ir.op_const(st_[2][1]) is not None and ir.op_const(st_[2][1]).get("v") in (False, 0):
+                pp = C.path_pred(s, blk.idx)
+                for nset in (0, 1, 2, 5, 64):
+                    for nh in (1, 3, 7, 16):
+                        r = pp({"@prog": prog, "self.num_bits_set": nset, "self.num_hashes": nh, "self.bit_array": [1] * 4, "len(self.bit_array)": 4})
+                        if r is None:
+                            continue
+                        if verdict is None:
+                            verdict = True
+                        if r is True and nset > 0 and verdict is not False:
+                            verdict, wit = False, "with %d bit(s) set and %d hashes contains() answers false without probing" % (nset, nh)
+    if verdict is None and all("is_empty" in c or "num_bits_set" in c for c in conds):
+        verdict = True
+    res.obligations -= 1
+    res.tri(verdict, "C09.A", "C09.A|contains|shortcut", "%s: %s (an inserted item whose probe positions coincide is reported absent)" % (con.id, wit), con.id)
 
     # ---------------- C09.N count maintenance
     sb = C.fn_one(prog, B, "set_bit")
@@ -348,6 +366,31 @@ def run(prog, ctx):
                    key_filter=lambda k: "|bloom|" in k)
     # ---------------- C09.K a decision taken after a call that changes a counter looks at the counter after it (common.stale_count_decisions)
     C.stale_count_rule(res, prog, "C09.K", "bloom::", "Bloom filter")
+    # ---------------- C09.S builder sizing: for every documented (max_items >= 1, fpp in (0, 1]) the suggested number of bits is the
+    # published ceil(-n ln p / ln(2)^2), at least one bit (fpp = 1.0 makes the formula 0; a filter of 0 bits divides by zero on insert)
+    import math as _m
+    n_s = 0
+    for g in sorted((x for x in prog.fns.values() if not x.promoted and x.id.startswith("bloom::") and x.item_name == "suggest_num_bits" and x.argc == 2), key=lambda x: x.id):
+        eg = C.ret_expr(prog, g)
+        if eg is None:
+            continue
+        n_s += 1
+        verdict, wit = None, ""
+        for n in (1, 2, 1000, 10 ** 7):
+            for pfp in (1e-9, 0.01, 0.5, 0.999999, 1.0):
+                try:
+                    got = formula.evaluate(eg, {"@prog": prog, "@ieee": True, g.local_name(1) or "max_items": n, g.local_name(2) or "fpp": pfp})
+                except (formula.Uneval, TypeError, ZeroDivisionError, ValueError):
+                    continue
+                if not isinstance(got, int):
+                    continue
+                want = max(1, int(_m.ceil(-n * _m.log(pfp) / (_m.log(2.0) ** 2))))
+                if verdict is None:
+                    verdict = True
+                if (got < 1 or (got != want and want < (1 << 36))) and verdict is not False:
+                    verdict, wit = False, "suggest_num_bits(%d, %r) = %d, the published sizing gives %d" % (n, pfp, got, want)
+        res.tri(verdict, "C09.S", "C09.S|%s" % g.id, "%s: %s" % (g.id, wit), g.id)
+    res.rule("C09.S", n_s, 1, "Bloom sizing from (max_items, fpp)")
     res.explanation = ("formula and structural rules over the %d functions reachable from the BloomFilter mutators and contains(): index formula on a "
                        "grid, double hashing seeds, sibling agreement of check/set, word/bit split, count maintenance" % len(reach))
     res.not_decided = "measured false-positive rate"
